@@ -155,6 +155,7 @@ class AirTouchSocket(Generic[comms.Hdr]):
         self.is_open = False
         self.is_connected = False
         self._connecting = False
+        self._close_done: Optional[asyncio.Future[None]] = None
 
         self._background_tasks: set[asyncio.Task[Any]] = set()
 
@@ -176,18 +177,27 @@ class AirTouchSocket(Generic[comms.Hdr]):
         """Close the socket to the AirTouch."""
         if self.is_open:
             self.is_open = False
-            # Stop any connection attempt that is still pending or in flight
-            # (including a delayed retry) and the read loop. Otherwise the
-            # connection could be (re-)established after the socket was closed.
-            current_task = asyncio.current_task()
-            for task in list(self._background_tasks):
-                if task is not current_task:
-                    task.cancel()
-            # Messages that are still waiting for a connection belong to the
-            # session that is being closed. They must not be sent if the socket
-            # is opened again later.
-            self._message_queue.clear()
-            await self._disconnect()
+            self._close_done = self._loop.create_future()
+            try:
+                # Stop any connection attempt that is still pending or in flight
+                # (including a delayed retry) and the read loop. Otherwise the
+                # connection could be (re-)established after the socket was
+                # closed.
+                current_task = asyncio.current_task()
+                for task in list(self._background_tasks):
+                    if task is not current_task:
+                        task.cancel()
+                # Messages that are still waiting for a connection belong to
+                # the session that is being closed. They must not be sent if
+                # the socket is opened again later.
+                self._message_queue.clear()
+                await self._disconnect()
+            finally:
+                self._close_done.set_result(None)
+        elif self._close_done is not None and not self._close_done.done():
+            # Another caller is still closing the socket. Closed means closed
+            # for every caller, so wait until that call has finished.
+            await asyncio.shield(self._close_done)
 
     async def send(self, message: comms.Message, retry_policy: RetryPolicy) -> None:
         """Send a message to the AirTouch.
